@@ -5,7 +5,7 @@
    DESIGN.md §5, F4.  The schedules are replayed on the implementation by the first
    corpus entries of tools/props/c10.py. *)
 From Coq Require Import List ZArith Bool Arith.
-From GZ Require Import C10.Model.
+From GZ Require Import C10.Model C10.ProofsP.
 Import ListNotations.
 Open Scope Z_scope.
 
@@ -197,3 +197,77 @@ Proof. vm_compute. repeat split; reflexivity. Qed.
    pinned variant; the executor passes errors of three concrete types (cancelErr, *ptrErr,
    *errors.errorString, wrapped errors, the context error of the ctx branch) to concurrent cancel
    calls, and the real runtime panic is then an outcome outside the allowed set. *)
+
+(* Seeded change C10-6 - a plausible repair of F13 that is wrong: finish() no longer closes output,
+   only the reducer goroutine closes it after the reducer function has returned (and after
+   drain(collector) and finish()).  A closed output was also what let the CALLER return at once
+   after a cancel: now the caller's selects see output closed only when the reducer goroutine has
+   ended, which needs the collector closed, which needs every running mapper to have returned.
+   Variant: the caller's three waits test "reducer goroutine ended" instead of [finished].  (The
+   seed's `received` flag, which lets the deferred loop accept one value, is not needed for the
+   witness and left out.)  Props.prompt_after_cancel proves that the real protocols - both values of
+   [safe_out] - return with library steps only. *)
+Definition out_closed_late (s : state) : bool := is_fin (redpc s).
+Definition main_step_late (c : config) (s : state) (b : branch) : option state :=
+  match mainpc s with
+  | MSelect =>
+    if foreach c then main_step c s b
+    else match b with
+         | BOut => match out_take s with
+                   | Some (y, s1) => Some (set_main s1 (MDefer (out_result s (Some y))))
+                   | None => if out_closed_late s then Some (set_main s (MDefer (out_result s None))) else None
+                   end
+         | _ => main_step c s b
+         end
+  | MDrainOut p =>
+    match out_take s with
+    | Some (_, s1) => Some s1
+    | None => if out_closed_late s then Some (set_main s (MQuit (OPanic p))) else None
+    end
+  | MDefer o =>
+    match b with
+    | BPanic => main_step c s b
+    | _ => match out_take s with
+           | Some (_, s1) => Some (set_main s1 (MQuit (OPanic PMulti)))
+           | None => if out_closed_late s then Some (set_main s (MQuit o)) else None
+           end
+    end
+  | _ => main_step c s b
+  end.
+Definition step_late (c : config) (s : state) (l : label) : option state :=
+  match l with LMain b => main_step_late c s b | _ => step c s l end.
+Fixpoint run_late (c : config) (s : state) (sched : list label) : state :=
+  match sched with
+  | [] => s
+  | l :: tl => match step_late c s l with Some s1 => run_late c s1 tl | None => run_late c s tl end
+  end.
+
+(* two items; mapper 1 cancels and returns; mapper 2 stays parked before its first action for ever *)
+Definition c106_cfg : config :=
+  mkCfg VFixed false 2%nat [USend 1; USend 2]
+        (fun x => if x =? 1 then [UCancel (Some 5)] else [UWrite 20]) [URecvAll; UWrite 777] false.
+Definition c106_sched : list label :=
+  rep 12 [LGen; LExec false] ++ rep 10 [LMap 0]
+  ++ rep 12 [LRed; LExec true; LExec false; LMain BOut; LMain BPanic; LMain BCtx; LGen; LMap 0].
+
+Theorem seed_c10_6_waits_for_stragglers :
+  let s := run_late c106_cfg (init c106_cfg) c106_sched in
+  lib_stuck_with (step_late c106_cfg) s = true            (* only the parked mapper could move *)
+  /\ reterr s = Some (ECancel 5) /\ finished s = true /\ genpc s = Fin
+  /\ map mpc (maps s) = [Fin; Gate [UWrite 20]]
+  /\ mainpc s = MSelect.                                  (* ... and the caller has not returned *)
+Proof. vm_compute. repeat split; reflexivity. Qed.
+
+Example real_code_returns_while_the_mapper_is_parked :
+  let s := run c106_cfg (init c106_cfg) c106_sched in
+  lib_stuck c106_cfg s = true /\ map mpc (maps s) = [Fin; Gate [UWrite 20]]
+  /\ result s = Some (OErr (ECancel 5)).
+Proof. vm_compute. repeat split; reflexivity. Qed.
+
+(* the candidate repair pending/C10-output-never-closed.diff keeps promptness (the caller selects on done) *)
+Example never_closed_repair_returns_while_the_mapper_is_parked :
+  let c := mkCfg VFixed false 2%nat (gscript c106_cfg) (mscript c106_cfg) (rscript c106_cfg) true in
+  let s := run c (init c) c106_sched in
+  lib_stuck c s = true /\ map mpc (maps s) = [Fin; Gate [UWrite 20]]
+  /\ result s = Some (OErr (ECancel 5)).
+Proof. vm_compute. repeat split; reflexivity. Qed.
